@@ -37,8 +37,20 @@ def gen_circuit(rng, tier, max_herald_photons=2, lossy=None, bad=0.0, max_dim=No
         nfull = meta["vis"][cid] + sum(1 for o in prog if o[0] == "herald")
         if lossy and count_loss(prog) == 0:
             continue
-        if hp <= max_herald_photons and nfull + count_loss(prog) <= max_dim and meta["opn"][cid] >= 1:
-            return prog, cid, meta["opn"][cid], hp
+        if not (hp <= max_herald_photons and nfull + count_loss(prog) <= max_dim and meta["opn"][cid] >= 1):
+            continue
+        # a heralded circuit added several times multiplies its heralds and losses: bound what the
+        # program really builds (the size of U_full and the herald photons of the selected circuit)
+        try:
+            _, pool = cg.run_impl(prog)
+            circ = pool[cid]
+            dim = circ.U_full.shape[0]
+            hp_real = sum(circ.heralds["input"].values())
+            if dim > max_dim or hp_real > max_herald_photons or sum(circ.heralds["output"].values()) > max_herald_photons:
+                continue
+            return prog, cid, circ.input_modes, hp_real
+        except Exception:  # noqa: BLE001
+            continue
     return [["new", 0, 2]], 0, 2, 0
 
 
